@@ -19,4 +19,4 @@ def run(rep, tier, seed):
     rep.assumptions.append('crash model is the one stated in the property (prefix of written bytes >= last fsync, directory operations in issue order >= last fsync)')
 
 def replay(rep, path):
-    print(open(path).read()[:3000]); return 1
+    return k3check.replay_crash(rep, path)
